@@ -668,7 +668,12 @@ func holdsCallFalse(p *Program, b *ssa.BasicBlock, callee string, arg ssa.Value)
 	return holdsCall(p, b, callee, arg, false)
 }
 func holdsCall(p *Program, b *ssa.BasicBlock, callee string, arg ssa.Value, want bool) bool {
-	for _, g := range append(append([]guard{}, guardsOf(b)...), p.enumGuards(b)...) {
+	return guardsHaveCall(p, append(append([]guard{}, guardsOf(b)...), p.enumGuards(b)...), callee, arg, want)
+}
+
+// guardsHaveCall: one of the guards is callee(arg) with the wanted outcome.
+func guardsHaveCall(p *Program, gs []guard, callee string, arg ssa.Value, want bool) bool {
+	for _, g := range gs {
 		cond, pol := g.Cond, g.Pol
 		for {
 			c := p.resolve(cond)
